@@ -667,6 +667,15 @@ pub fn rechunk_sequences(
         chunked_sequences.push(sequence);
     }
 
+    // Trailing empty segments (e.g. left behind by `delete`) hold no row ids.
+    while segment_offset == 0
+        && segment_iter
+            .peek()
+            .is_some_and(|segment| segment.is_empty())
+    {
+        segment_iter.next();
+    }
+
     if segment_iter.peek().is_some() {
         return Err(too_many_segments_error(
             chunked_sequences.len(),
